@@ -3,7 +3,7 @@
 use crate::engine::{digest, Campaign, Ctx, Fail, Kind, Prop, Stats};
 use crate::gen::layout::{self, Feats, TriviaCfg};
 use crate::gen::svgen::{self, Class, Program, Tok};
-use crate::sv::{self, clip, first_diff, skeleton, Grammar};
+use crate::sv::{self, clip, first_diff, skeleton, Grammar, NodeEvent, RefNode};
 use crate::tape::Tape;
 use serde_json::json;
 
@@ -26,12 +26,62 @@ fn skeleton_no_resetall(tree: &sv::SyntaxTree, text: &str) -> Vec<String> {
     out
 }
 
+/// A leaf outside WhiteSpace subtrees is a token; apart from string literals no token holds white space (if one did,
+/// the trivia behind it would be part of the token and could not be replaced). Returns the offending (owner kind, text).
+fn token_with_white_space(tree: &sv::SyntaxTree, text: &str) -> Option<(String, String)> {
+    let mut stack: Vec<String> = Vec::new();
+    let mut ws = 0usize;
+    for e in tree.into_iter().event() {
+        match e {
+            NodeEvent::Enter(n) => {
+                if let RefNode::WhiteSpace(_) = n {
+                    ws += 1;
+                }
+                if let RefNode::Locate(l) = n {
+                    if ws == 0 && stack.last().map(|k| k != "StringLiteral").unwrap_or(true) {
+                        let t = &text[l.offset..l.offset + l.len];
+                        if t.chars().any(|c| c.is_whitespace()) {
+                            return Some((stack.last().cloned().unwrap_or_default(), t.to_string()));
+                        }
+                    }
+                }
+                stack.push(sv::kind(&n));
+            }
+            NodeEvent::Leave(n) => {
+                stack.pop();
+                if let RefNode::WhiteSpace(_) = n {
+                    ws -= 1;
+                }
+            }
+        }
+    }
+    None
+}
+
+thread_local! {
+    /// set by parse_sk* when an accepted tree holds a token with white space inside (reported by the caller)
+    static BAD_TOKEN: std::cell::RefCell<Option<(String, String)>> = std::cell::RefCell::new(None);
+}
+
+fn parse_sk_g(g: Grammar, text: &str) -> Option<Vec<String>> {
+    sv::parse_text(g, text, false).ok().map(|(t, pp)| {
+        if let Some(x) = token_with_white_space(&t, &pp) {
+            BAD_TOKEN.with(|b| *b.borrow_mut() = Some(x));
+        }
+        skeleton_no_resetall(&t, &pp)
+    })
+}
+
 fn parse_sk(text: &str) -> Option<Vec<String>> {
-    sv::parse_text(Grammar::Sv, text, false).ok().map(|(t, pp)| skeleton_no_resetall(&t, &pp))
+    parse_sk_g(Grammar::Sv, text)
 }
 
 fn parse_sk_lib(text: &str) -> Option<Vec<String>> {
-    sv::parse_text(Grammar::Lib, text, false).ok().map(|(t, pp)| skeleton_no_resetall(&t, &pp))
+    parse_sk_g(Grammar::Lib, text)
+}
+
+fn take_bad_token() -> Option<(String, String)> {
+    BAD_TOKEN.with(|b| b.borrow_mut().take())
 }
 
 /// Does listed finding K3 touch one of the two layouts (the production memo configuration parses it differently
@@ -161,6 +211,22 @@ impl Prop for C12 {
         ]
     }
     fn run(&self, ctx: &Ctx, campaign: &str, t: &mut Tape, st: &mut Stats) -> Result<(), Fail> {
+        let _ = take_bad_token();
+        let r = self.run_case(ctx, campaign, t, st);
+        if r.is_ok() {
+            if let Some((kind, text)) = take_bad_token() {
+                return Err(Fail::new(
+                    format!("a token of an accepted tree holds white space: {:?} under {} (the trivia behind it is part of the token)", text, kind),
+                    json!({"campaign": campaign, "token": text, "owner": kind}),
+                ));
+            }
+        }
+        r
+    }
+}
+
+impl C12 {
+    fn run_case(&self, ctx: &Ctx, campaign: &str, t: &mut Tape, st: &mut Stats) -> Result<(), Fail> {
         st.eval();
         let mut cfg = TriviaCfg::full();
         cfg.formfeed = true;
